@@ -191,8 +191,23 @@ class SerialOb:
         self.slices = list(slices)      # sub-sets of the hypotheses (unsat there is a proof), tried before the full query
 
 
+_SYM_CACHE = {}
+_Q_CACHE = {}
+
+
 def array_symbols(e, cache=None):
     """names of the uninterpreted array-sorted constants (heap fields, ghost views) occurring in e"""
+    k = e.get_id()
+    if k in _SYM_CACHE:
+        return _SYM_CACHE[k]
+    r = _array_symbols(e)
+    if len(_SYM_CACHE) > 200000:
+        _SYM_CACHE.clear()
+    _SYM_CACHE[k] = r
+    return r
+
+
+def _array_symbols(e):
     out, seen, stack = set(), set(), [e]
     while stack:
         x = stack.pop()
@@ -250,7 +265,7 @@ def serialize(ob):
                 slices.append(to_smt2([h for i, h in enumerate(ob.hyps) if (not quant[i]) or i in keepx], ob.goal))
             if not grew:
                 break
-        for level in range(1):
+        for level in range(0):
             pick = [i for i, (q, sy) in enumerate(zip(quant, syms)) if q and (sy & cur)]
             if len(pick) == nq or len(pick) == prev_n:
                 break
@@ -274,6 +289,15 @@ def serialize_cover(named):
 
 
 def has_quantifier(e):
+    k = e.get_id()
+    if k not in _Q_CACHE:
+        if len(_Q_CACHE) > 200000:
+            _Q_CACHE.clear()
+        _Q_CACHE[k] = _has_quantifier(e)
+    return _Q_CACHE[k]
+
+
+def _has_quantifier(e):
     seen = set()
     stack = [e]
     while stack:
